@@ -202,7 +202,7 @@ func (e *c15Env) exec(c c15Case, kind string) (got c15Out, want c15Out, keys []s
 	defer sess.Close()
 	cl := sess.Via(kind)
 	tag := strings.ToLower(c.Op) + "-" + strings.ToLower(kind)
-	const d = 50 * time.Second // relative expiry used by options
+	const d = 50*time.Second + 500*time.Millisecond // relative expiry used by options (not a whole number of seconds)
 	tol := 3 * time.Millisecond
 
 	switch c.Op {
@@ -407,7 +407,7 @@ func (e *c15Env) exec(c c15Case, kind string) (got c15Out, want c15Out, keys []s
 		keys = []string{key}
 		timeout := time.Duration(0)
 		if c.Opts == "PX" {
-			timeout = 60 * time.Second
+			timeout = 60*time.Second + 250*time.Millisecond
 		}
 		if c.Op == "LockBusy" {
 			// someone else holds it (taken through the owner); a second Lock with a 300 ms deadline must fail
